@@ -28,3 +28,7 @@ chk("C02", "3-way differential between real ledgers: validating consensus node v
 chk("C05", "per-transaction write-set monitor on the real block executor (ExecuteBlock of single-tx blocks on committed states) against the fee-only rule",
     "1500/40000 generated invoke transactions (random bytes; scripts that write storage, notify, transfer ONG and then THROW/fault/loop; drain their payer so the fee is unpayable; native calls with random arguments; unauthorised and over-balance transfers; successes) x gas price {0,1,500,2500,random} x gas limits around minimum/code-length gas x 13 graded payer balances. For FAIL: changed keys must be only payer/governance ONG balance, fee conserved, 0<=fee<=balance, GasConsumed=fee, only the fee event; for charged successes GasConsumed = ONG reaching governance.",
     "invoke transactions only (deploy/EIP-155 are chain furniture); WASM invokes not driven")
+
+chk("C43", "log-vs-bloom monitor on committed blocks + exact bit-for-bit comparison of each completed section index with the per-block blooms, across restarts",
+    "4200 (quick) / 8400 (thorough) block solo chains with generated LOG0..LOG4 contracts called with random topics/data (incl. reverting calls); every log in the stored events and every log expected by construction must hit the stored block bloom (address + each topic); at every completed 4096-block section all 2048 decompressed bit vectors must equal the blooms they were built from in both directions, live and after restarts inside and exactly at a section end.",
+    "filter start height 0 (solo network); logs = generated contracts + native ONG transfer logs")
